@@ -165,7 +165,13 @@ pub fn run_session(mut src: Source, supported: Arc<BTreeSet<String>>, properties
         if let Some(f) = &verdict.fault { bump(&mut stats.faults_fired, &fault_family(f)); }
         bump(&mut stats.reach, &format!("err:{}", name));
         // baseline discovery: only rejections of statements the model considers well-defined and fault-free count
-        if verdict.fault.is_none() { stats.combos_err.insert(verdict.combo.clone()); }
+        if verdict.fault.is_none() {
+          stats.combos_err.insert(verdict.combo.clone());
+          if let Ok(path) = std::env::var("MECHSIM_REJ_LOG") {
+            use std::io::Write;
+            if let Ok(mut f) = std::fs::OpenOptions::new().create(true).append(true).open(path) { writeln!(f, "{} || {} || {} || store: {}", verdict.combo, text, outcome.show(), show_mstore(&pre)).ok(); }
+          }
+        }
         if verdict.must == Must::Ok {
           found = Some(viol("wrong-rejection", verdict.combo.clone(), "statement accepted (combination is in the supported baseline)".into(), outcome.show()));
         } else {
@@ -302,7 +308,8 @@ fn classify_ok_diffs(op: &Op, verdict: &Verdict, pre: &MStore, expected: &MStore
           let wrong: Vec<usize> = (0..de.len()).filter(|i| de[*i] != dob[*i]).collect();
           let outside = wrong.iter().any(|i| !verdict.addressed.contains(i));
           let class = if outside { "frame-violated" } else if matches!(op, Op::OpAssign { .. }) { "op-assign-arithmetic-wrong" } else { "addressed-element-wrong" };
-          let srcf = verdict.combo.rsplit('|').next().unwrap_or("").to_string();
+          let last = verdict.combo.rsplit('|').next().unwrap_or("");
+          let srcf = last.split_once(':').map(|(_, b)| b).unwrap_or(last).to_string();
           return viol(class, format!("{}|{}", form, srcf), exp_s, obs_s);
         }
         _ => {
